@@ -16,7 +16,7 @@ T = {
  "C02": dict(tech="TLC: code-shaped verifier == published relation over GF(p) (MC_Algebra, seeded-bug negatives); TLC trace validation of the library's final-MSM scalars against the published relation in 252-bit arithmetic (TraceVerify/BigField)",
              text="(a) TLC proves, exhaustively over small prime fields, that the code-shaped verifier (batched inverses, s recurrence, d by doubling, d_sum squaring trick, geometric y_sum, padding) equals weight x the published recursive zk-WIP relation on every symbol, and catches seeded coefficient bugs. (b) The unmodified library runs over a free-module group so every scalar it hands to its final multiscalar multiplication is recorded; TLC recomputes the published relation at the recorded Fiat-Shamir challenges in Z_l (BigField.tla) and requires equality on every generator, proof element and commitment, zero padding, nothing extra, and verdict == (result is identity) - for honest, altered, aggregated, promised and mixed-capacity batches. (c) every single alteration is replayed for verdict agreement.",
              ref="§6 C02"),
- "C03": dict(tech="TLA+ model of verify_batch orchestration (chunk loop, consistency, result vector) checked by TLC with negative configs; behaviours replayed at model scale and with chunks expanded to the real 256",
+ "C03": dict(tech="TLA+ model of verify_batch orchestration (chunk loop, consistency, result vector) checked by TLC with negative configs and by Apalache with the chunk size symbolic; behaviours replayed at model scale and with chunks expanded to the real 256; TLC trace validation of the batch weights",
              text="The chunk loop of verify_batch is a spec action with MaxBatch a constant; TLC checks verdict == conjunction, k aligned results and the refusal cases for every assignment of valid/invalid/disagreeing members up to 3*MaxBatch+1, and must find the violation in the two seeded-bug configurations (first chunk only; loop without whole-batch consistency). Every behaviour is replayed on the library, and again with each model chunk expanded to 256 real members so the real chunk boundaries are hit.",
              ref="§6 C03"),
  "C04": dict(tech="TLA+ term model of the transcript (MC_Transcript, omission negatives) checked by TLC; TLC trace validation of recorded merlin operations: dependency at every challenge and single-datum perturbation pairs (TraceTranscriptPair)",
@@ -25,7 +25,7 @@ T = {
  "C05": dict(tech="TLA+ API state machine with alteration actions, TLC-enumerated single alterations replayed on the library",
              text="TLC enumerates every single alteration of an accepted triple (each scalar and point slot with several replacement kinds, rounds +/-, degree tag, trailing/truncated bytes, each promise, commitment, generator, bit length, capacity, label) and predicts reject / accept (None<->Some(0), capacity); the library must agree on both groups and never panic.",
              ref="§6 C05"),
- "C06": dict(tech="TLA+ prover guard sequence (PGuard, U64 limb arithmetic) vs witness relation checked by TLC; all boundary behaviours replayed",
+ "C06": dict(tech="TLA+ prover guard sequence (PGuard, U64 limb arithmetic) vs witness relation checked by TLC, and by Apalache with every value/promise an arbitrary 64-bit integer; all boundary behaviours replayed; TLC trace validation of the committed bits",
              text="The prover's guards in code order are a spec operator over 4x16-bit-limb u64 arithmetic; TLC checks `proof <=> witness valid` over boundary values/promises at every position and every witness deviation, and the library is run on each.",
              ref="§6 C06"),
  "C07": dict(tech="TLA+ API machine: promise substitution at verification, TLC-enumerated, replayed",
@@ -34,13 +34,13 @@ T = {
  "C08": dict(tech="TLC adversary game over formal weights (MC_Weights) and weight-seed binding (MC_Transcript); TLC trace validation of weight provenance and homogeneity in 252-bit arithmetic (TraceVerify), response-perturbation pairs",
              text="(MC) an adaptive-adversary game with weights as formal indeterminates: no cancellation under the code's policy, attacks found for 'blind to a response' and 'constant' policies; the weight seed contains r1, s1 and every d1. (TV) on recorded multi-member batches TLC checks: member i's contribution to the weight transcript is an output of a generator built on i's transcript after all its responses were absorbed, the weight generator is built after every member contributed, w_i (defined as minus the scalar on B_i) is non-zero, is the reduction of a weight-generator output, distinct per member, and multiplies every scalar of proof i. Changing any response scalar changes the contribution and every weight.",
              ref="§6 C08"),
- "C09": dict(tech="TLA+ API machine mask-result pattern (MaskOf) checked by TLC; behaviours replayed with exact mask comparison",
+ "C09": dict(tech="TLA+ API machine mask-result pattern (MaskOf) checked by TLC; behaviours replayed with exact mask comparison (also beyond the chunk limit); TLC trace validation: seed nonces at (label, j, k) in the prover, recovery equation in the verifier (BigField)",
              text="Seeds x modes x batch compositions; the predicted per-member result (none / exact mask) is compared with the library's output component-wise.",
              ref="§6 C09"),
- "C10": dict(tech="TLA+ API machine: verdict independent of seed and mode, RecoverOnly masks; TLC-enumerated, replayed",
+ "C10": dict(tech="TLA+ API machine: verdict independent of seed and mode, RecoverOnly masks; TLC-enumerated, replayed; TLC trace validation of the recovery equation under wrong seeds and in RecoverOnly",
              text="valid and invalid proofs x {no seed, right seed, wrong seed} x three modes; predicted verdicts and mask classes (exact / other / none) compared on both groups.",
              ref="§6 C10"),
- "C15": dict(tech="TLA+ step-wise decoder (MC_Codec) == closed-form acceptance set, checked by TLC over (length, first byte, non-canonical chunk); every state executed on from_bytes/serde; prover outputs round-tripped",
+ "C15": dict(tech="TLA+ step-wise decoder == closed-form acceptance set, checked by TLC over (length, first byte, non-canonical chunk) and by Apalache with the length symbolic (every length); every TLC state executed on from_bytes/serde (slice and stream); prover outputs round-tripped",
              text="The decoder is a pc-machine shaped like the code (first byte, chunks_exact, d1 x tag, points, r1/s1, pairs, non-empty, leftovers); TLC proves acceptance <=> the closed form of C15 over every (total length 0..642, first byte class, which chunk is non-canonical) and prints each state; the harness builds concrete bytes for each (canonical random scalars, four kinds of non-canonical encodings) and checks from_bytes, re-encoding equality, the bincode form and getters. Prover outputs over the configuration lattice are checked for the length formula and decode(encode(p)) = p; the n*m = 1 failure is the recorded finding.",
              ref="§6 C15"),
  "C16": dict(tech="TLA+ totality of decoder and API machine (TLC), TLC-enumerated hostile shapes replayed under catch_unwind in release (overflow checks on) and dev profiles, random strings of every length",
